@@ -138,10 +138,16 @@ def validate(c, trace, pid, chunk=12000, also=("panic",)):
 
 def replay(c, pid):
     """--replay: re-validate a stored slice."""
-    r = c.validate("RouterStepTrace", "RouterStepTrace.cfg", c.replay)
+    import shutil
+    src = os.path.join(c.scratch, "replayed.ndjson")      # report() stores a copy under out/replay
+    shutil.copyfile(c.replay, src)
+    r = c.validate("RouterStepTrace", "RouterStepTrace.cfg", src)
+    if r.done != r.nlines:
+        raise vlib.Infra("replay: trace not consumed: %s" % r.other_error)
     for m in _BAD.finditer(r.out):
         if m.group(1) == "BAD" and (m.group(3).startswith(pid + ":") or m.group(3) == "panic"):
-            c.report(m.group(3), "replayed trace line %s" % m.group(2), c.replay)
+            c.report(m.group(3), "replayed trace line %s" % m.group(2), src)
+    c.cov["evaluations"] += max(0, r.nlines - 1)
     c.cov["traces_validated_against_impl"] += 1
 
 
